@@ -131,3 +131,70 @@ def reference_jacobian(blocks_in_order, ss, inputs, N):
             if row:
                 total[o] = row
     return total
+
+
+# ---- linear general-equilibrium models whose blocks carry leads and lags of DIFFERENT depths ---------------------------------
+def gen_shift_ge(rng):
+    """exogenous v0, unknown v1, target v4; an upstream chain lead -> lag (v0 -> v2 -> v3) produces sparse elements with missing initial rows (m > 0)"""
+    k1, k2 = rng.choice([1, 2, 3]), rng.choice([1, 2, 3])
+    c = lambda: rng.choice([-2, -1, 1, 2])
+    return [dict(name='fore', ins=['v0'], outs={'v2': {'v0': (c(), k1)}}),
+            dict(name='contract', ins=['v2', 'v0'], outs={'v3': {'v2': (c(), -k2), 'v0': (c(), rng.choice([0, 0, -1]))}}),
+            dict(name='pricing', ins=['v1', 'v3', 'v0'], outs={'v4': {'v1': (4, 0), 'v3': (c(), rng.choice([0, 1, -1])), 'v0': (c(), -1)}}),
+            dict(name='market', ins=['v1', 'v3'], outs={'v5': {'v1': (2, -1), 'v3': (c(), rng.choice([0, 1, 2]))}, 'v6': {'v1': (c(), 1)}})]
+
+
+def shift_ge_reference(model, ss, T, K=14):
+    """dense reference of the T-truncated general-equilibrium Jacobian from the single-block Jacobians (chain rule on a longer horizon, cut to T)"""
+    ref = reference_jacobian(model.blocks, ss, ['v0', 'v1'], T + K)
+    w = lambda o, i: ref[o][i][:T, :T] if i in ref.get(o, {}) else np.zeros((T, T))
+    GU = -np.linalg.solve(w('v4', 'v1'), w('v4', 'v0'))
+    out = {'v1': GU}
+    for o in ('v2', 'v3', 'v5', 'v6'):
+        out[o] = w(o, 'v1') @ GU + w(o, 'v0')
+    return out
+
+
+def check_shift_ge(rng, nmodels, nested, tag):
+    """flat solve_jacobian / solve_impulse_linear (and, if nested, the model with the pricing block wrapped as a solved block) vs the dense reference"""
+    from sequence_jacobian import combine
+    out, n, T = [], 0, 10
+    W = T - 4      # H_U is diagonal here, so truncation (products of windows vs windows of products when a lead follows) only touches the last rows
+    specs = [gen_shift_ge(rng) for _ in range(nmodels)]
+    mod = write_linear_models(f'shiftge_{tag}_{nmodels}', specs)
+    for mi, blocks in enumerate(specs):
+        n += 1
+        objs = {b['name']: getattr(mod, f'm{mi}_{b["name"]}') for b in blocks}
+        flat = combine(list(objs.values()), name=f'sg{mi}')
+        ss = flat.steady_state({'v0': 1.0, 'v1': 0.5})
+        ref = shift_ge_reference(flat, ss, T)
+        inp = dict(kind='shift-ge', blocks=blocks)
+        try:
+            G = flat.solve_jacobian(ss, ['v1'], ['v4'], ['v0'], T=T)
+            bad = [o for o in ref if np.abs(dense(G[o]['v0'], T) - ref[o]).max() > 1e-9] if all(o in G.outputs for o in ref) else ['missing outputs']
+            if not bad:
+                sh = {'v0': np.r_[1.0, -0.5, 0.25, np.zeros(T - 3)]}
+                imp = flat.solve_impulse_linear(ss, ['v1'], ['v4'], sh)
+                bad = [o for o in ('v1', 'v3', 'v5') if np.abs(imp[o][:T - 4] - (ref[o] @ sh['v0'])[:T - 4]).max() > 1e-9]
+        except Exception as ex:
+            bad = [f'raised {type(ex).__name__}: {ex}']
+        if bad:
+            out.append(dict(what='general-equilibrium Jacobian / linear impulse of a model with leads and lags of different depths differs from the dense reference', input=dict(inp, form='flat', entries=bad[:4]),
+                            signature=dict(op='shift-ge', form='flat')))
+        if nested:
+            try:
+                inner = combine([objs['pricing']], name=f'in{mi}').solved(unknowns={'v1': (-60.0, 60.0)}, targets=['v4'], solver='brentq', name=f'solved{mi}')
+                nm = combine([objs['fore'], objs['contract'], inner, objs['market']], name=f'nest{mi}')
+                ssn = nm.steady_state({'v0': 1.0})
+                ssf = flat.solve_steady_state({'v0': 1.0}, {'v1': (-60.0, 60.0)}, ['v4'], solver='brentq')
+                reff = shift_ge_reference(flat, ssf, T)
+                J = nm.jacobian(ssn, ['v0'], T=T)
+                Js = nm.partial_jacobians(ssn, ['v0'], T=T)
+                J2 = nm.jacobian(ssn, ['v0'], T=T, Js=Js)
+                bad = [o for o in reff if np.abs(dense(J[o]['v0'], T)[:W] - reff[o][:W]).max() > 1e-8 or np.abs(dense(J2[o]['v0'], T)[:W] - reff[o][:W]).max() > 1e-8]
+            except Exception as ex:
+                bad = [f'raised {type(ex).__name__}: {ex}']
+            if bad:
+                out.append(dict(what='the Jacobian of a model whose solved block sits downstream of a lead/lag chain differs from the flat general-equilibrium Jacobian (dense reference)',
+                                input=dict(inp, form='nested', entries=bad[:4]), signature=dict(op='shift-ge', form='nested')))
+    return out, n
